@@ -70,6 +70,13 @@ impl IString for StringRegNode {
                 "the data must be an ascii string".into(),
             ));
         }
+        if value.contains('\0') {
+            // The register holds a NUL terminated string: anything after a NUL would be
+            // lost on read back.
+            return Err(GenApiError::invalid_data(
+                "the data must not contain a NUL character".into(),
+            ));
+        }
         if value.len() > max_length {
             return Err(GenApiError::invalid_data(
                 "the data length exceeds the maximum length allowed by the node.".into(),
